@@ -4,6 +4,7 @@
 //! `pbrun gen <stream> <tier> <seed>`  -> request lines on stdout   (streams: C05e, C18e, C10e)
 //! `pbrun exec [--oracle FILE]`        -> reads request lines on stdin, one answer line each on stdout
 //! `pbrun types`                       -> the dispatch table: <type> <file> <index>
+//! `pbrun schemas`                     -> <file> <schema> for every corpus file
 #[path = "../../rt/src/gen.rs"]
 mod gen;
 #[path = "../../rt/src/val.rs"]
@@ -44,6 +45,7 @@ fn main() {
             let tb = ops::table();
             for e in &tb.entries { println!("{} {} {}", e.name, glue::FILE_SCHEMAS[e.file].0, e.idx); }
         }
+        Some("schemas") => { for (f, t) in glue::FILE_SCHEMAS { println!("{} {}", f, t); } }
         Some("exec") => {
             let oracle_path = args.iter().position(|a| a == "--oracle").map(|i| args[i + 1].clone());
             std::panic::set_hook(Box::new(|_| {}));
@@ -73,6 +75,6 @@ fn main() {
             }).unwrap();
             child.join().unwrap();
         }
-        _ => { eprintln!("usage: pbrun gen <stream> <tier> <seed> | pbrun exec [--oracle FILE] | pbrun types"); std::process::exit(2); }
+        _ => { eprintln!("usage: pbrun gen <stream> <tier> <seed> | pbrun exec [--oracle FILE] | pbrun types | pbrun schemas"); std::process::exit(2); }
     }
 }
